@@ -524,12 +524,12 @@ func init() {
 
 // rlWatched: reloads as deployments get them — triggered by the file watcher, not called by the harness.
 //
-//   order     a LARGE version is written and shortly afterwards a small one that revokes an address: once every triggered
-//             reload has completed, validations reflect the version ON DISK (reloads are applied in file order; a slow reload
-//             of a superseded version must not be the one that stays in force)
-//   symlinks  the file is mounted the way Kubernetes mounts a Secret / ConfigMap (file -> ..data/file, ..data -> ..v1) and
-//             rotated by re-pointing ..data: through the whole proxy (options validation, NewOAuthProxy) the rotated
-//             contents come into force
+//	order     a LARGE version is written and shortly afterwards a small one that revokes an address: once every triggered
+//	          reload has completed, validations reflect the version ON DISK (reloads are applied in file order; a slow reload
+//	          of a superseded version must not be the one that stays in force)
+//	symlinks  the file is mounted the way Kubernetes mounts a Secret / ConfigMap (file -> ..data/file, ..data -> ..v1) and
+//	          rotated by re-pointing ..data: through the whole proxy (options validation, NewOAuthProxy) the rotated
+//	          contents come into force
 func rlWatched(c *suiteCtx, dir string) {
 	// ---- order
 	{
